@@ -49,7 +49,7 @@ type KnownFinding struct {
 	Text       string
 }
 
-var findingRe = regexp.MustCompile(`^finding:\s+property=(\S+)\s+obligation=(.+?)\s+--\s+(.*)$`)
+var findingRe = regexp.MustCompile(`^finding:\s+property=(\S+)\s+(?:obligation|bounded)=(.+?)\s+--\s+(.*)$`)
 
 func loadFindings(path string) []KnownFinding {
 	var out []KnownFinding
@@ -276,6 +276,39 @@ func cmdCheck(args []string) int {
 			}
 		}
 	}
+	// bounded stand-ins: an exhaustive run of the real code over a stated finite space, for the parts
+	// of the property whose functions are outside the verifier's reach (never counted as proved)
+	brun := runBounded(*verif, *repo, prop, *tier, work, "", "")
+	var boundedKnown []string
+	if brun.Ran {
+		perTest := map[string]int{}
+		for k, bv := range brun.Violations {
+			key := boundedKey(bv)
+			isKnown := false
+			for _, kf := range findings {
+				if kf.Property == prop && kf.Obligation == key {
+					fmt.Printf("KNOWN-FINDING: property=%s bounded %s -- %s\n", prop, key, kf.Text)
+					boundedKnown = append(boundedKnown, key)
+					isKnown = true
+					break
+				}
+			}
+			if isKnown {
+				continue
+			}
+			violations++
+			perTest[bv.Test]++
+			if perTest[bv.Test] > 3 {
+				continue // the first three failing cases of a harness test are written out; the rest are counted
+			}
+			rp := writeBoundedReplay(replayDir, prop, k, bv, brun)
+			fmt.Printf("VIOLATION property=%s replay=%s\n", prop, rp)
+		}
+		if brun.Err != "" {
+			fmt.Printf("UNDECIDED bounded harness: %s\n", brun.Err)
+		}
+		fmt.Printf("BOUNDED property=%s tests=%d cases=%d violations=%d known=%d wall=%.1fs (bounded stand-in: not counted as proved)\n", prop, len(brun.Tests), brun.Cases, len(brun.Violations)-len(boundedKnown), len(boundedKnown), brun.WallS)
+	}
 	// stale contracts / engine errors
 	var errList []string
 	for fn, es := range funcErrs {
@@ -319,7 +352,8 @@ func cmdCheck(args []string) int {
 	}
 	sort.Strings(outside)
 	level := "proof"
-	if discharged != len(agg) || len(errList) > 0 || len(agg) == 0 {
+	claimedObls := len(agg) - len(known) // recorded known findings are reported separately and are not part of what is claimed
+	if discharged != claimedObls || len(errList) > 0 || claimedObls == 0 {
 		level = "other"
 	}
 	if lv := claimedLevel(*verif, prop); lv != "" && lv != "proof" {
@@ -333,7 +367,8 @@ func cmdCheck(args []string) int {
 	}
 	sort.Strings(mathFns)
 	cov := map[string]interface{}{
-		"obligations":              len(agg),
+		"obligations":              claimedObls,
+		"obligations_generated":    len(agg),
 		"discharged":               discharged,
 		"obligation_instances":     len(obls),
 		"checker_cmd":              fmt.Sprintf("/verif/bin/govc check %s --tier %s", prop, *tier),
@@ -350,6 +385,19 @@ func cmdCheck(args []string) int {
 		"unchecked_arithmetic_in":  mathFns,
 		"explanation": fmt.Sprintf("contract-based deductive verification of the real code: %d named obligations (%d per-path instances) generated from go/ssa of /repo's working tree for %d functions under contract; %d discharged (unsat of the negated VC), %d undecided, %d known findings, %d violations",
 			len(agg), len(obls), len(names), discharged, len(undecided), len(known), violations),
+	}
+	if brun.Ran {
+		cov["bounded"] = map[string]interface{}{
+			"label":          "BOUNDED stand-in for functions outside the verifier's reach: exhaustive run of the real code over the stated finite space; not counted in obligations/discharged and never counted as proved",
+			"tests":          brun.Tests,
+			"cases":          brun.Cases,
+			"spaces":         brun.Spaces,
+			"violations":     len(brun.Violations) - len(boundedKnown),
+			"known_findings": boundedKnown,
+			"cmd":            brun.Cmd,
+			"wall_s":         brun.WallS,
+			"error":          brun.Err,
+		}
 	}
 	ev := Evidence{PropertyID: prop, Tier: *tier, Seed: seed, Level: level, Coverage: cov, Assumptions: assumptionsFor(v, names), WallS: time.Since(t0).Seconds(), Violations: violations}
 	if !*noEvidence {
